@@ -93,6 +93,12 @@ def gen_case(ch: Chooser, tier: str = "quick") -> dict:
             f = ["func", fname, params, body, ret]
             funcs.append(f)
             c.stmts.append(f)
+        factory_named = [False]
+        ent_vars: list = []
+        # a caller-side Entity whose name equals the callee's local entity name
+        clash = placing and ch.chance(1, 2)
+        if clash:
+            c.stmts.append(["place", "lamp", "small-lamp", ["lit", 44, 10], ["lit", -20, 10], None])
         # call sites
         n_calls = ch.rint(1, 4)
         for ci in range(n_calls):
@@ -100,12 +106,23 @@ def gen_case(ch: Chooser, tier: str = "quick") -> dict:
             args = _args(ch, f, None, False, g, row, inside=False)
             if f[4] == ["var", "lamp"]:
                 nm = c.fresh("e")
+                if not clash and not factory_named[0] and ch.chance(1, 2):
+                    nm = "lamp"           # factory pattern: caller variable named like the callee's local
+                    factory_named[0] = True
                 c.stmts.append(["decl", "Entity", nm, ["call", f[1], args]])
+                ent_vars.append(nm)
             else:
                 nm = c.fresh("r")
                 c.stmts.append(["decl", "Signal", nm, ["call", f[1], args]])
                 if ch.chance(1, 3):
                     c.stmts.append(["decl", "Signal", c.fresh("u"), ["bin", "+", ["var", nm], ["lit", 1, 10]]])
+        if clash:
+            c.stmts.append(["enable", "lamp", ["bin", ch.pick(lang.CMP_OPS), g.sig_leaf(),
+                                               ["lit", ch.i32_biased(-9, 9), 10]]])
+        if factory_named[0] and len(ent_vars) >= 2:
+            # the factory's own enable is overwritten by nothing: use a different property-free check:
+            # just make sure later statements that name `lamp` still mean the first placed entity
+            pass
         if ch.chance(1, 4):
             f = ch.pick(funcs)
             if f[4] != ["var", "lamp"] and not any(p[1] == "px" for p in f[2]):
